@@ -63,7 +63,9 @@ FieldNames == {"UserName", "UserEmail", "EPPN", "Surname", "GivenName", "CommonN
 FieldSets == { {}, FieldNames, {"UserEmail", "EPPN"}, {"UserName", "UserEmail"} } \cup { {f} : f \in FieldNames }
 Contents == {"plain", "xmlspecial", "unicode", "space", "tabnl", "cr"}
 \* nid: the session's name identifier is "set" or the "empty" string (a user record without the field it is taken from)
-Sess(f, g, c, n, s, t) == [fields |-> f, groups |-> g, custom |-> c, nidfmt |-> n, subj |-> s, content |-> t, nid |-> "set"]
+\* exp: the session ends "far" from now or "soon" (30 s from now, inside MaxIssueDelay): the response's validity is counted
+\* from issuance whatever is left of the session
+Sess(f, g, c, n, s, t) == [fields |-> f, groups |-> g, custom |-> c, nidfmt |-> n, subj |-> s, content |-> t, nid |-> "set", exp |-> "far"]
 BaseSess == Sess({"UserName", "UserEmail"}, 0, 0, FALSE, FALSE, "plain")
 
 Keys == {"key", "signer", "both"}
@@ -96,6 +98,9 @@ FamC == { [BaseIn EXCEPT !.sess = Sess(FieldNames, 2, 1, TRUE, TRUE, t), !.svc =
 \* S: whose name identifier - the request proposes a subject, the session has or lacks one
 FamS == { [BaseIn EXCEPT !.reqsubj = r, !.sess = [Sess(f, 1, 0, n, FALSE, "plain") EXCEPT !.nid = d], !.enc = e] :
             r \in BOOLEAN, d \in {"set", "empty"}, f \in { {}, {"UserName", "UserEmail"} }, n \in BOOLEAN, e \in BOOLEAN }
+\* L: what is left of the session - under every tolerance setting, both launch kinds
+FamL == { [BaseIn EXCEPT !.kind = k, !.sess = [BaseSess EXCEPT !.exp = "soon"], !.set = st, !.iipos = IF k = "sso" THEN p ELSE "none", !.enc = e] :
+            k \in {"sso", "idpinit"}, st \in Settings, p \in {"equal", "within"}, e \in BOOLEAN }
 \* X (thorough): routing x configuration x encryption, attributes x encryption x launch kind
 FamX == { [r EXCEPT !.idp = Idp(ky, m, 0), !.enc = e, !.svc = SvcOne] : r \in FamR, ky \in {"key", "signer"}, m \in {"sha1", "sha512"}, e \in BOOLEAN }
         \cup { [a EXCEPT !.enc = TRUE, !.kind = k, !.iipos = IF k = "sso" THEN "equal" ELSE "none"] : a \in FamA, k \in {"sso", "idpinit"} }
@@ -109,7 +114,7 @@ R   == in.reg
 Designated == IF SSO THEN Rule(R, CHOOSE u \in UrlReadings(in.url) : TRUE, CHOOSE i \in IdxReadings(in.idx) : TRUE)
               ELSE First(PostEPs(R))
 
-Init == /\ in \in FamR \cup FamA \cup FamK \cup FamT \cup FamC \cup FamS \cup (IF Tier = "t" THEN FamX ELSE {})
+Init == /\ in \in FamR \cup FamA \cup FamK \cup FamT \cup FamC \cup FamS \cup FamL \cup (IF Tier = "t" THEN FamX ELSE {})
         /\ SSO => Validatable(in.iipos, in.set)
         /\ Designated # None                       \* fed by C05's successful shapes only
         /\ pc = "MakeAssertion" /\ sel = Designated
